@@ -3,6 +3,7 @@ import os
 import vlib
 
 ACTIONS = ["Init", "Next"]
+REPLAY_BIN = "replay_basen"
 
 # read by bin/mkmanifest
 META = {
@@ -12,6 +13,20 @@ META = {
     "technique": "TLA+ spec (BaseN.tla) + TLC exhaustive; spec->impl case replay; impl->spec trace validation",
     "design_ref": "DESIGN.md §4 C18",
 }
+
+
+def explain(ctx, dev):
+    """Model-check the decoder machines with one deviation switched on and
+    print TLC's counterexample (documentation of a finding)."""
+    import re
+    cfg = open(os.path.join(vlib.SPEC, "MC_BaseN.cfg")).read()
+    cfg = re.sub(r"Dev = \{\}", 'Dev = {"%s"}' % dev, cfg)
+    open(os.path.join(vlib.SPEC, "MC_BaseN_explain.cfg"), "w").write(cfg)
+    try:
+        res = ctx.tlc("MC_BaseN", "MC_BaseN_explain", workers=4, label="explain", coverage=False)
+        print(open(res.log).read()[-3000:])
+    finally:
+        os.remove(os.path.join(vlib.SPEC, "MC_BaseN_explain.cfg"))
 
 
 def run(ctx):
